@@ -979,9 +979,9 @@ _CACHE = {}
 def run_all(ctx, scale=1):
     env = Env(ctx)
     try:
-        sweep(env, ctx, rounds=ctx.budget(3, 14) * scale, viz_total=ctx.budget(8, 60) * scale)
-        programs(env, ctx, ctx.budget(60, 800) * scale, viz_total=ctx.budget(4, 30) * scale)
-        reals = real_runs(env, ctx, ctx.budget(15, 150) * scale, True)
+        sweep(env, ctx, rounds=ctx.budget(2, 14) * scale, viz_total=ctx.budget(8, 60) * scale)
+        programs(env, ctx, ctx.budget(50, 800) * scale, viz_total=ctx.budget(4, 30) * scale)
+        reals = real_runs(env, ctx, ctx.budget(12, 150) * scale, True)
         if env.uncovered:
             ctx.notes.append("uncovered public names (no argument recipe; reported, not failed): %s" % sorted(env.uncovered.items()))
         never = sorted((v, o) for v, o in env.attempted.items() if not env.accepted.get(v))
@@ -1000,7 +1000,19 @@ def corr(ctx):
     ctx.notes.append("API-wide sweep = differential validation of the effect table (publicExec / site table), not proof")
     # (1) effect table: observed "tried to execute" vs the model's list
     labels = sorted(verdicts)
-    ans = ctx.lean.drive(DRIVER, ["public|%s" % v for v in labels])
+    model_exec = ["compute", "Array.compute", "store", "to_zarr", "measure_reserved_mem", "Array.__array__", "Array.__bool__",
+                  "Array.__complex__", "Array.__float__", "Array.__index__", "Array.__int__", "Array.__getitem__[cubed-key]",
+                  "take[cubed-indices]"]
+    ereqs = [(case, tokens, req) for case, tokens, req in reals if req is not None]
+    # one driver invocation for all requests (Lean start-up dominates)
+    batches = [["public|%s" % v for v in labels], ["public|%s" % v for v in model_exec],
+               ["trace|" + " ".join(t) for _, t, _ in reals], ["exec|" + r[2][0] for r in ereqs]]
+    flat = ctx.lean.drive(DRIVER, [r for b in batches for r in b])
+    answers, k = [], 0
+    for b in batches:
+        answers.append(flat[k:k + len(b)])
+        k += len(b)
+    ans, ans_exec, tans, eans = answers
     for v, a in zip(labels, ans):
         obs = verdicts[v]
         want = {a == "exec"}
@@ -1008,24 +1020,16 @@ def corr(ctx):
             ctx.disagree("publicExec (model effect table) = observed execution attempts under raise_if_computes",
                          {"variant": v}, a, "executes" if True in obs else "lazy")
     # every exec variant of the model must have been exercised and must have tripped the detector
-    model_exec = ["compute", "Array.compute", "store", "to_zarr", "measure_reserved_mem", "Array.__array__", "Array.__bool__",
-                  "Array.__complex__", "Array.__float__", "Array.__index__", "Array.__int__", "Array.__getitem__[cubed-key]",
-                  "take[cubed-indices]"]
-    ans = ctx.lean.drive(DRIVER, ["public|%s" % v for v in model_exec])
-    for v, a in zip(model_exec, ans):
+    for v, a in zip(model_exec, ans_exec):
         if a != "exec":
             ctx.disagree("publicExec contains the property's allowed list", {"variant": v}, a, "exec")
         if v not in verdicts:
             ctx.disagree("every allowed-to-execute variant was exercised and tripped the detector", {"variant": v}, "exec", "never accepted")
     # (2) real traces through the model's acceptor; real dag through the model's finalize
-    treqs = ["trace|" + " ".join(t) for _, t, _ in reals]
-    tans = ctx.lean.drive(DRIVER, treqs)
     for (case, tokens, req), a in zip(reals, tans):
         want = "ok" if direct_trace_check(tokens) is None else "bad"
         if a.split(" ")[0] != want:
             ctx.disagree("traceOk (model acceptor) = direct check of the observed store trace", case, a, want)
-    ereqs = [(case, tokens, req) for case, tokens, req in reals if req is not None]
-    eans = ctx.lean.drive(DRIVER, ["exec|" + r[2][0] for r in ereqs])
     for (case, tokens, (ops, real_creates, real_createpred, empty)), a in zip(ereqs, eans):
         fields = dict(f.split("=", 1) for f in a.split("|") if "=" in f)
         model_creates = [x for x in fields.get("creates", "").split(",") if x]
